@@ -125,6 +125,15 @@ def run_case(ctx, case):
     if kind in ("standalone", "standalone_reset", "standalone_factory", "standalone_midhistory"):
         run = Run(case["instance"], case.get("filter"))
         order = rng.random() < 0.5
+        rule_sibling = None
+        if kind == "standalone" and case["seed"] % 11 == 5:
+            # the shared observer-based rule object looks at this dispatcher before the reward
+            # observers exist, and serves a second dispatcher of the same instance in between
+            from job_shop_lib.dispatching import Dispatcher
+            from job_shop_lib.dispatching.rules import observer_based_most_work_remaining_rule as _rule
+            _rule(run.d)
+            rule_sibling = Run(case["instance"], None, instance=run.instance)
+            ctx.count("histories_with_the_shared_rule_serving_two_dispatchers")
         if kind == "standalone_midhistory":
             # observers attached to a dispatcher that already holds a partial schedule; they are
             # judged from the next reset on (a reset must make them start from zero)
@@ -238,6 +247,13 @@ def run_case(ctx, case):
             pol = case["policy"]
             before = run.r.makespan()
             o, m = run.choose(rng, pol if pol != "mixed" else rng.choice(gen.POLICIES))
+            if rule_sibling is not None:
+                from job_shop_lib.dispatching.rules import observer_based_most_work_remaining_rule as _rule
+                if not rule_sibling.done():
+                    _rule(rule_sibling.d)
+                    o9, m9 = rule_sibling.choose(rng, "random_ready"); rule_sibling.dispatch(o9, m9)
+                if run.d.available_operations():
+                    _rule(run.d)
             try:
                 run.dispatch(o, m)
             except RuntimeError:
